@@ -22,7 +22,7 @@ LOOKAHEAD = [
 DOCSTRING = [
     "Feature: f\n", "  Scenario: s\n", "    Given x\n", '      """\n', "      ```\n", '    """ text/plain\n', "        ``` json\n",
     "      Scenario: no\n", "  @tag\n", "# c\n", "\n", "        | a |\n", "   less\n", '      \\"\\"\\"\n', "      \\`\\`\\`\n",
-    "    Examples:\n", "          deep\n", "  Background:\n", "  Scenario Outline: o\n", "            \n", "  Rule: r\n", '      """ # end\n',
+    "    Examples:\n", "          deep\n", "  Background:\n", "  Scenario Outline: o\n", "            \n", "  Rule: r\n", '      """ # end\n', '      x \\"\\"\\" y \\"\\"\\" \\`\\`\\`\n',
 ]
 
 # errors: faults of every kind
@@ -34,7 +34,7 @@ ERRORS = [
 # tables: rectangular and ragged data / examples tables, escapes
 TABLES = [
     "Feature: f\n", "  Scenario Outline: s <a>\n", "    Given <a> x\n", "    Examples:\n", "      | a |\n", "      | a | b |\n", "      | \\| | \\n |\n",
-    "      |  |\n", "      ||\n", "  # c\n", "\n", "    | x\\\\ | <a> |\n", "      | a | b | c |\n", "    Given y\n",
+    "      |  |\n", "      ||\n", "  # c\n", "\n", "    | x\\\\ | <a> |\n", "      | a | b | c |\n", "    Given y\n", "      |\n", "      | name\n",
 ]
 
 # dialect switching: French and English keyword lines, header at different positions
